@@ -50,6 +50,9 @@ func runPresence(c *Ctx) {
 			// emphasise zero and empty pointees
 			if c.rng.Chance(60) {
 				z := reflect.New(pointee)
+				if pointee == tTime && c.rng.Bool() {
+					z.Elem().Set(reflect.ValueOf(time.Unix(0, 0).UTC())) // the instant both time codecs could mistake for "nothing"
+				}
 				v.Field(0).Set(z)
 				m := reflect.MakeMap(fields[1].Type)
 				m.SetMapIndex(reflect.ValueOf(0), reflect.New(pointee))
@@ -78,6 +81,7 @@ func runPresence(c *Ctx) {
 
 func runMerge(c *Ctx) {
 	coreHeader(c, 1)
+	keyScratchHistories(c)
 	vg := &ValGen{r: c.rng}
 	n := scale(c, 200, 5000)
 	for i := 0; i < n; i++ {
@@ -135,6 +139,49 @@ func runMerge(c *Ctx) {
 				}
 			}
 			c.addDec(tc, data, prior, "merge", shapeClass(tc.T, 2)+"/"+fmt.Sprint(prior.IsZero()), !prior.IsZero() && len(data) > 0)
+		}
+	}
+}
+
+// keyScratchHistories: maps with struct keys decode the key into pooled scratch
+// memory; a decode that fails after the key was read must not leave anything behind
+// that a later decode can see. Every truncation of a valid message is tried.
+func keyScratchHistories(c *Ctx) {
+	type K2 struct {
+		A int    `plenc:"1"`
+		B string `plenc:"2"`
+	}
+	types := []reflect.Type{
+		reflect.TypeOf(map[KeyS]Inner{}),
+		reflect.TypeOf(map[K2]string{}),
+		reflect.StructOf([]reflect.StructField{{Name: "M", Type: reflect.TypeOf(map[K2]int{}), Tag: `plenc:"1"`}}),
+		reflect.StructOf([]reflect.StructField{{Name: "M", Type: reflect.TypeOf(map[K2]int{}), Tag: `plenc:"1,proto"`}}),
+		reflect.TypeOf(map[*K2]int{}),
+	}
+	vg := &ValGen{r: c.rng}
+	for _, t := range types {
+		tc := newTypeCase(t, Cfg{})
+		if _, err := tc.P.CodecForType(t); err != nil {
+			continue
+		}
+		for round := 0; round < scale(c, 2, 10); round++ {
+			full := fullValue(t, 3) // every key field set
+			data, err := tc.P.Marshal(nil, full.Addr().Interface())
+			if err != nil {
+				continue
+			}
+			for cut := 1; cut < len(data); cut++ {
+				scratch := reflect.New(t)
+				c.crumb(fmt.Sprintf("key-scratch damaged decode type=%s data=%x", t, data[:cut]))
+				safely(func() error { return tc.P.Unmarshal(data[:cut], scratch.Interface()) })
+				// now valid data whose keys have zero fields, into a fresh variable
+				v := vg.Value(t, 2)
+				d2, err := tc.P.Marshal(nil, v.Addr().Interface())
+				if err != nil || len(d2) == 0 {
+					continue
+				}
+				c.addDec(tc, d2, reflect.New(t).Elem(), "key-scratch", "key-scratch/"+shapeClass(t, 2), true)
+			}
 		}
 	}
 }
